@@ -172,7 +172,7 @@ CallFn(kind, args, env, log) ==
          ELSE LET a == args[1] IN
               IF NotInt64(a) THEN Err(log)
               ELSE IF IsSpecial(a) THEN (IF a.n < 0 THEN Err(log) ELSE Oos(log))
-              ELSE IF a.d # 1 THEN Oos(log)
+              ELSE IF a.d # 1 THEN (IF RFloorI(a) < 1 THEN Err(log) ELSE Oos(log))   \* no integer in [1, 0.5]
               ELSE IF a.n < 1 THEN Err(log) ELSE Oos(log)
     \* random_range(a, b): an integer in a..b; a > b is out of domain
     [] kind = "random_range" ->
@@ -183,7 +183,9 @@ CallFn(kind, args, env, log) ==
                      (IF IsSpecial(a) /\ a.n > 0 /\ ~(IsSpecial(b) /\ b.n > 0) THEN Err(log)    \* 2^62 > b
                       ELSE IF IsSpecial(b) /\ b.n < 0 /\ ~(IsSpecial(a) /\ a.n < 0) THEN Err(log) \* a > -2^62
                       ELSE Oos(log))
-              ELSE IF a.d # 1 \/ b.d # 1 THEN Oos(log)
+              \* bounds that are not whole numbers: the value is an integer BETWEEN them (C09), so
+              \* random_range(0.25, 0.75) has nothing to draw from and is out of domain like (5, 1)
+              ELSE IF a.d # 1 \/ b.d # 1 THEN (IF RCeilI(a) > RFloorI(b) THEN Err(log) ELSE Oos(log))
               ELSE IF a.n > b.n THEN Err(log) ELSE Oos(log)
     [] kind = "number" ->
          IF Len(args) = 1 /\ IsNum(args[1]) THEN Ok(args[1], log)
